@@ -3,6 +3,8 @@ import Firebolt.Properties.ExecCompose
 import Firebolt.Properties.ExecNet
 import Firebolt.Properties.ExecLive
 import Firebolt.Properties.ExecRank
+import Firebolt.Generated.Closure
+import Firebolt.Expected.Closure
 /-!
 # C03 — Clean shutdown drains the whole pipeline and orders node lifecycles
 The invariants under every interleaving are proved on the node component model (`Properties/ExecCascade.lean`, imported by
@@ -130,5 +132,9 @@ theorem tree_drain_terminates (cfg : Path → Cfg) (caps : Path → Nat) (disc :
     cont.length ≤ Phi N d ∧
     ((∀ p a, nonEnv a = true → gstep N' p a = none) → ∀ p, inTree cfg p → Terminal (cfg p) (N'.st p)) :=
   drain_terminates_any cfg caps disc d pre cont N N' hpre hcont hd hW hcap hsrc hs
+
+/-! ### influence closure: the pinned functions, and every function of the repository that writes a struct field or package
+variable they read, are unchanged (digests regenerated from /repo on every run; a difference names the functions) -/
+theorem closure_unchanged : GeneratedClo.C03 = ExpectedClo.C03 := by rfl
 
 end Firebolt.C03
